@@ -28,14 +28,6 @@ TYPE_MAP = {
 }
 
 
-class CBOOL(Sort):
-    def z3sort(self):
-        return z3.BoolSort()
-
-    def fresh(self, name):
-        return z3.Bool(fresh_name(name))
-
-
 def tyname(node):
     t = node.get("type", {})
     q = t.get("desugaredQualType") or t.get("qualType") or ""
@@ -323,11 +315,21 @@ class CppSource:
     def load(self, qualname):
         short = qualname.split("::")[-1]
         docs = self.dump(qualname)
+        want = getattr(self, "want_params", None)
+        cands = []
         for d in docs:
             if d.get("kind") in ("CXXMethodDecl", "FunctionDecl", "CXXConstructorDecl") and d.get("name") == short:
+                if [c for c in d.get("inner", []) if c.get("kind") == "CompoundStmt"]:
+                    cands.append(d)
+        if want is not None and len(cands) > 1:
+            # several definitions share this name (e.g. operator== of std templates pulled in by headers): take the one whose
+            # parameter names are those of the contract
+            named = [d for d in cands if [p.get("name") for p in d.get("inner", []) if p.get("kind") == "ParmVarDecl"] == want]
+            if named:
+                cands = named
+        for d in cands[:1]:
+            if True:
                 body = [c for c in d.get("inner", []) if c.get("kind") == "CompoundStmt"]
-                if not body:
-                    continue
                 self.raw[qualname] = d
                 low = _Lowering()
                 params = [c for c in d.get("inner", []) if c.get("kind") == "ParmVarDecl"]
@@ -377,6 +379,11 @@ def _w(ty):
 
 class CppEngine(Engine):
     """Engine over bit-vectors.  Integer-typed values are z3 BitVecs; bool is z3 Bool."""
+
+    def verify(self, contract):
+        self.src.want_params = [p for p in contract.params if p != "self"]
+        self.src.functions.cache.pop(contract.qualname, None)
+        return super().verify(contract)
 
     def bind_params(self, st, contract, fn):
         params = dict(contract.params)
